@@ -648,22 +648,25 @@ int main(int argc, char **argv)
         "at every digit boundary j (all j for d<=17, j in {1,2,3,7,8,9,15,16,17,31,32,33,47,48,49,63,64,65,d/2,d-3,d-2,d-1} above), 2 seed-perturbed values}; "
         "d in {1,2,3,4,7,8,9,16,17,31,32,33} quick, plus {48,64,65,96} thorough (PSTM_MAX_SIZE=192 digits, products up to 192). "
         "ALL pairs U(d1)xU(d2) for add/sub (4 sign combinations x out fresh-small/fresh-with-stale-data/out=a/out=b), cmp+cmp_mag (4 signs), mul_comba (paD none/"
-        "adequate/too small, out=a, out=b, signs), div (quotient+remainder, quotient only, remainder only, outputs aliasing inputs both ways, 4 signs for d<=9), "
-        "mod (a<0 too, out=a, out=b); a=b same object and out=a=b for d1=d2. All x in U(d), both signs: sqr_comba (out=x, paD variants), mul_2, div_2, mul_d/add_d/"
+        "adequate/too small, out=a, out=b, signs), div (quotient+remainder with fresh outputs and with quotient=a,remainder=b for every pair; for max(d1,d2)<=17 also "
+        "stale-data outputs and quotient=b,remainder=a; for <=9 also quotient-only, remainder-only and all 4 sign combinations), mod (a>=0 and a<0; out=a; out=b for "
+        "d<=17); a=b same object and out=a=b for d1=d2. All x in U(d), both signs: sqr_comba (out=x, paD variants), mul_2, div_2, mul_d/add_d/"
         "sub_d (digits 0,1,2,B-1,2^63), lshd, rshd, div_2d (shifts 0,1,7,8,63,64,65,127,128,64d-1,64d,64d+1,-1; with/without remainder; out=x), copy, init_copy, abs, "
         "cmp_d, count_bits, unsigned_bin_size, to_unsigned_bin(+_nr,+_alloc), read_unsigned_bin (0/1/9 leading zero bytes; both init functions), read_asn, read_radix(16), "
         "montgomery_setup; 2expt for every exponent -2..64*70 (130 thorough) and the PSTM_MAX_SIZE boundary. Triples from the reduced universe R(d) (17 structural "
         "values) with moduli M(d) = {2^k-1, 2^k-3, 2^(k-1)+1, seeded odd, 0xAA..AB, B^(d-1)+1, 0x55.., top+bottom; even: 2^k-2, 2^(k-1), 0xAA.., top digit only, "
-        "B^(d-1); d=1: 1,2,3,5}: mulmod (d x d and d x 1, modulus of 1, d-1, d digits, out=a, out=b), invmod (R(d1) x M(d2) all d1,d2; out=a), montgomery_reduce "
+        "B^(d-1); d=1: 1,2,3,5}: mulmod (d x d and d x 1, modulus of 1, d-1, d digits, out=a; out=b and stale outputs for d<16), invmod (R(d1) x M(d2) all d1,d2; out=a), montgomery_reduce "
         "(x*y for x<=y<m in R(d), odd m, paD variants; INNERMUL8 and tail loops via d=8,9,16,17,32,33) + calc_normalization, exptmod (g in R(1),R(p-1),R(p),R(p+1); "
         "x in {0,1,2,3,65537,B-1,B,P-1,P-2,(P-1)/2,0x55..,P,P+1,seeded}; P in M(8,9,16,32,33) quick +M(24,48,64) thorough; Y=G alias). "
         "Comba selectors hit: pstm_mul_comba16 (16x16), pstm_mul_comba32 (32x32), pstm_mul_comba_gen (all other pairs incl. 16x17, 17x16, 32x33, 16x32), "
         "pstm_sqr_comba16 (16), pstm_sqr_comba32 (32), pstm_sqr_comba_gen (others). "
-        "Oracle: value and sign equal to the exact result, result clamped, no negative zero, digits above 'used' zero; an error code is accepted (outcome class "
+        "Violation keys are op|signs|alias|kind (operand classes and digit counts are in the descriptor). "
+        "Oracle: value and sign equal to the exact result, result clamped, no negative zero (stale non-zero digits above 'used' are only counted, outcome "
+        "exact-but-stale-high-digits); invmod must return the residue in [0,m) for a<m (kind unreduced-result otherwise); an error code is accepted (outcome class "
         "error-returned, not non-trivial) for: division/reduction by zero, invmod without inverse or hitting the 4096-iteration bound, even or wrongly sized exptmod "
         "modulus, exponent 0 or >= P (documented restrictions), 2expt beyond 128 digits; an error for add/sub/mul/sqr/div/mod/shift/import/export on these sizes is a "
-        "violation (unexpected-error). Not checked (don't care): negative modulus, invmod modulus 1, negative operands of the modular operations, invmod of a>=m may "
-        "return any representative congruent to the inverse. non-trivial = the bundle compared at least one successful MatrixSSL result with BN.";
+        "violation (unexpected-error). Not checked (don't care): negative modulus, modulus 1 for invmod/Montgomery, even moduli for the Montgomery helpers, negative operands of the "
+        "modular operations; invmod of a>=m may return any representative congruent to the inverse. non-trivial = the bundle compared at least one successful MatrixSSL result with BN.";
     cfg.assumptions[0] = "OpenSSL BN implements exact integer arithmetic";
     cfg.assumptions[1] = "operands are built directly in pstm_int (digits, used, sign) so that import is tested independently of the other operations";
     cfg.assumptions[2] = "plain (non-sanitizer) build: out-of-bounds accesses that do not change a result are not observed here";
